@@ -596,11 +596,25 @@ def run_roundtrip_check(ck, fmt, pr, gen):
         # rows added before some of the columns: structmap is not the identity
         nc = len(P["cols"])
         mixes[cid] = (ck.rng.randrange(0, max(1, nc // 2 + 1)) if fam[cid] == "wrap" else ck.rng.randrange(0, nc + 1)) if (i % 2 == 1 or fam[cid] == "wrap") else None
+    mps_variant = 0
+    if fmt == "MPS":
+        # the witnesses of C09_mps_setname_clash_refuted / _rhs_refuted (IO/MpsWf.v) replayed on the library
+        W0 = dict(name="clash", max=True, cols=[("BOUND", F(1), F(0), INF, False), ("2", F(1), F(0), F(4), False)],
+                  rows=[("r", "L", F(10), F(0), [("BOUND", F(1)), ("2", F(1))])])
+        W1 = dict(name="clash", max=False, cols=[("x", F(1), F(0), INF, False)],
+                  rows=[("RHS", "L", F(10), F(0), [("x", F(1))]), ("1", "G", F(5), F(0), [("x", F(1))])])
+        for wid, W in (("w0", W0), ("w1", W1)):
+            probs[wid], fam[wid], mixes[wid] = W, "setname-clash witness", None
+        # which writer does the library have: as found (set names RHS / RANGE / BOUND) or with mps_setname_clash.diff (names made unique)
+        rc, out, err = run_io("CASE probe\n" + load_block(0, W1) + "\nWRITE h0 probe.mps MPS\nCAT probe.mps\n")
+        pt = cat_bytes(next((o for o in split_ops(split_cases(out)[1].get("probe", [])) if o[0][0] == "CAT"), None)) or b""
+        mps_variant = 1 if b" RHS_0 " in pt else 0
+        ck.cov["mps_writer_variant"] = "set names made unique (mps_setname_clash.diff)" if mps_variant else "as found (RHS / RANGE / BOUND)"
     k = 0
     edits = {}
     for cid, P in probs.items():
         k += 1
-        edits[cid] = gen_edits(ck.rng, P) if k % 3 == 0 else []
+        edits[cid] = gen_edits(ck.rng, P) if (k % 3 == 0 and not cid.startswith("w")) else []
         cases.append((cid, rt_script(cid, P, fmt, gen.magnitude_ok(P), k % 5 == 0, edits[cid], mixes[cid])))
     ck.cov["cases_with_edit_history"] = sum(1 for v in edits.values() if v)
     ck.cov["cases_rows_before_columns"] = sum(1 for v in mixes.values() if v is not None)
@@ -619,6 +633,7 @@ def run_roundtrip_check(ck, fmt, pr, gen):
     wq = {}         # writer correspondence: query id -> (case, label, text written by the library)
     mq = {}         # the same for MPS files
     tq = {}         # statement of C08_lp_roundtrip evaluated by the extracted code on the generated problem
+    rq = {}         # statement of C09_mps_roundtrip evaluated by the extracted code on the problem as dumped before the first MPS write
     nq = {}         # name repair: model fix_names vs announced renames
     e = "lp" if fmt == "LP" else "mps"
     for cid, P in probs.items():
@@ -718,7 +733,10 @@ def run_roundtrip_check(ck, fmt, pr, gen):
             if len(text) < 400000 and C["name"] is not None:
                 on = C["objname"] if C["objname"] is not None else lp_objname(dict(objname=None, rows=[(r[0],) for r in C["rows"]]))
                 mq["%s.m%d" % (cid, j)] = (cid, lab, text)
-                q.append("Q %s.m%d mpswrite\n%s" % (cid, j, mlp_block(C, on)))
+                q.append("Q %s.m%d mpswrite %d\n%s" % (cid, j, mps_variant, mlp_block(C, on)))
+                if fmt == "MPS" and j == 0 and lab == "a":
+                    rq["%s.rt" % cid] = cid
+                    q.append("Q %s.rt mpsrt %d\n%s" % (cid, mps_variant, mlp_block(C, on)))
         for j, (label, A, B, ren, fm, why) in enumerate(chain):
             if why is not None or B is None:
                 fails.append((cid, "%s: %s" % (label, why or "no problem"), fm, texts))
@@ -828,6 +846,39 @@ def run_roundtrip_check(ck, fmt, pr, gen):
                                            note="wf_lpb (proved sound for wf_lp) evaluated on the dumped problem after the announced renames; for these problems "
                                                 "C08_lp_roundtrip applies, and together with the two correspondences (writer bytes here, reader outcomes in C10) "
                                                 "it predicts the round trip observed")
+    clash_model = set()
+    if rq:
+        nrt, nwf, nok, nclash, ntie = 0, 0, 0, 0, 0
+        libfail = {f[0] for f in fails if "write MPS / read" in f[1]}
+        for k2, cid in rq.items():
+            a = ans.get(k2)
+            if not a or len(a) < 4:
+                corr_bad.append("mpsrt query %s: %s" % (k2, a))
+                continue
+            nrt += 1
+            core, setn, tag, eqv = a[0] == "1", a[1] == "1", a[2], a[3] == "true"
+            applies = core and (setn or mps_variant == 1)
+            if core and not setn:
+                nclash += 1
+                clash_model.add(cid)
+            if applies:
+                nwf += 1
+                if tag == "OK" and eqv:
+                    nok += 1
+                else:
+                    corr_bad.append("theorem C09_mps_roundtrip%s contradicted by the extracted code on case %s: precondition holds, read_mps (write_mps P) -> %s" % (
+                        "_fixed" if mps_variant else "", cid, a[2:]))
+            # tie: the model's round trip = the library's round trip (stage 'write MPS / read' of the chain)
+            if cid in info and info[cid]["chain"]:
+                lib_ok = cid not in libfail
+                ntie += 1
+                if lib_ok != (tag == "OK" and eqv):
+                    corr_bad.append("MPS round trip of case %s: extracted read_mps (write_mps P) -> %s, library round trip %s" % (cid, a[2:], "ok" if lib_ok else "failed"))
+        ck.cov["theorem_instances"] = dict(problems=nrt, precondition_holds=nwf, of_those_model_roundtrip_ok=nok, setname_hypothesis_fails=nclash,
+                                           model_vs_library_roundtrip_outcomes_compared=ntie,
+                                           note="wf_coreb / setnames_okb (proved sound for wf_mps) evaluated on the column-wise dump taken before the first MPS write; for these problems "
+                                                "C09_mps_roundtrip (writer as found) or C09_mps_roundtrip_fixed (repaired writer) applies; the outcome of the extracted "
+                                                "read_mps (write_mps P) is also compared with the outcome of the library's round trip on every case")
     nm_ = 0
     for k2, (cid, lab, text) in mq.items():
         a = ans.get(k2)
@@ -888,6 +939,8 @@ def run_roundtrip_check(ck, fmt, pr, gen):
         seen.add(cid)
         P = probs[cid]
         fam = label_failure(P, fm, texts, what)
+        if fam is None and cid in clash_model and mps_variant == 0 and ("reader rejected" in what or "not the problem written" in what or "differ" in what):
+            fam = "mps-setname-clash"       # the model (setnames_okb = false) predicts this failure: C09_mps_setname_clash_refuted
         replay = scripts[cid] + "\n# %s\n" % what
         ck.violation("rt_%s.txt" % cid, replay, "%s round trip of generated problem %s failed: %s" % (fmt, cid, what),
                      match=dict(kind=fam or "unexplained"))
